@@ -25,11 +25,12 @@ def run():
     try:
         snap = os.path.join(tmp, 'crate')
         shutil.copytree(REPO, snap, ignore=shutil.ignore_patterns('target', '.git', 'fuzz'))
-        combos = list(itertools.product((True, False), (False, True), (False, True), FEATURES))
+        # both profiles: `cfg(debug_assertions)` code differs between them (C13: debug and release; C19: the no_std build in either)
+        combos = list(itertools.product((True, False), (False, True), (False, True), FEATURES, ('dev', 'release')))
 
         def one(c):
-            std, nosimd, noct, feat = c
-            name = 'std=%s,disable_simd=%d,disable_simd_compiletime=%d,target_feature=%s' % ('on' if std else 'off', nosimd, noct, feat)
+            std, nosimd, noct, feat, prof = c
+            name = 'std=%s,disable_simd=%d,disable_simd_compiletime=%d,target_feature=%s%s' % ('on' if std else 'off', nosimd, noct, feat, '' if prof == 'dev' else ',profile=release')
             env = dict(os.environ, CARGO_NET_OFFLINE='true', CARGO_TARGET_DIR=os.path.join(tmp, 't%d' % combos.index(c)))
             for k in ('RUSTFLAGS', 'CARGO_CFG_HTTPARSE_DISABLE_SIMD', 'CARGO_CFG_HTTPARSE_DISABLE_SIMD_COMPILETIME', 'RUSTUP_TOOLCHAIN'):
                 env.pop(k, None)
@@ -39,7 +40,7 @@ def run():
                 env['CARGO_CFG_HTTPARSE_DISABLE_SIMD'] = '1'
             if noct:
                 env['CARGO_CFG_HTTPARSE_DISABLE_SIMD_COMPILETIME'] = '1'
-            cmd = ['cargo', 'check', '--lib', '--offline', '--quiet'] + ([] if std else ['--no-default-features'])
+            cmd = ['cargo', 'check', '--lib', '--offline', '--quiet'] + ([] if std else ['--no-default-features']) + ([] if prof == 'dev' else ['--release'])
             p = subprocess.run(cmd, cwd=snap, env=env, capture_output=True, text=True, errors="replace")
             errs = [l for l in p.stderr.split('\n') if l.startswith('error')]
             return dict(obligation='build:' + name, status='pass' if p.returncode == 0 else 'fail', detail='' if p.returncode == 0 else ('; '.join(errs[:4]) or p.stderr[-600:]),
